@@ -158,8 +158,7 @@ deriving DecidableEq, Repr
 /-- Methods of Go primitives and containers that take no lock of the table (atomic, WaitGroup.Add/Done, Cond.Broadcast,
 ordered map accessors …). -/
 def primitiveMeths : List Str :=
-  [s "Broadcast", s "Signal", s "Add", s "Done", s "Load", s "Store", s "Swap", s "Set", s "Delete", s "ForEach",
-   s "CompareAndSwap"]
+  [s "Broadcast", s "Signal", s "Add", s "Done", s "Load", s "Store", s "Swap", s "Set", s "Delete", s "CompareAndSwap"]
 
 /-- One token of `f` (receiver `abs`), callees inlined through `rec` (the expansion with less fuel). -/
 def expandTok (e : Env) (rec : Fn → Str → List ETok) (f : Fn) (abs : Str) (t : Str) (afterGo : Bool) : List ETok :=
@@ -188,7 +187,7 @@ def expandTok (e : Env) (rec : Fn → Str → List ETok) (f : Fn) (abs : Str) (t
         let (v, fields) := splitFirstDot r
         let ty0 : Option Str := if v = f.recv then some f.ty else (e.locals.find? (fun l => l.1 = v)).map (·.2)
         match ty0 with
-        | none => [.unresolved (r ++ ['.'] ++ m)]
+        | none => [.unresolved (rebase f.recv abs r ++ ['.'] ++ m)]
         | some t0 =>
           match e.bound.find? (fun b => b.1 = (t0, if fields.isEmpty then m else fields ++ ['.'] ++ m)) with
           | some b =>
@@ -197,11 +196,11 @@ def expandTok (e : Env) (rec : Fn → Str → List ETok) (f : Fn) (abs : Str) (t
              | none => [.unresolved m])
           | none =>
             match pathType e.tf e.known 6 t0 fields with
-            | none => [.unresolved (r ++ ['.'] ++ m)]
+            | none => [.unresolved (rebase f.recv abs r ++ ['.'] ++ m)]
             | some ty =>
               match e.find ty m with
               | some g => rec g (rebase f.recv abs r)
-              | none => [.unresolved (r ++ ['.'] ++ m)]
+              | none => [.unresolved (rebase f.recv abs r ++ ['.'] ++ m)]
     | .go => []
     | .chan op =>
       let (k, c) := (op.takeWhile (· ≠ ' '), (op.dropWhile (· ≠ ' ')).drop 1)
@@ -231,6 +230,7 @@ structure Scan where
   unresolved : List Str := []
   unbalanced : List Str := []               -- unlock of a lock that is not held
   chanUnderLock : List (Str × List Str) := []  -- blocking channel operations made while a lock is held
+  userUnderLock : List (Str × List Str) := []  -- calls the table cannot resolve (user code: subscriber callbacks, …) made under a lock
 deriving Repr
 
 def addNew {α} [DecidableEq α] (xs : List α) (x : α) : List α := if xs.contains x then xs else xs ++ [x]
@@ -264,7 +264,9 @@ def scanStep (conds : List (Str × Str)) (st : Scan) : ETok → Scan
     let bad := st.held.filter (fun h => some h ≠ own)
     if bad.isEmpty then st else { st with waits := st.waits ++ [(x, bad)] }
   | .chan op => if st.held.isEmpty then st else { st with chanUnderLock := addNew st.chanUnderLock (op, st.held) }
-  | .unresolved x => { st with unresolved := addNew st.unresolved x }
+  | .unresolved x =>
+    { st with unresolved := addNew st.unresolved x,
+              userUnderLock := if st.held.isEmpty then st.userUnderLock else addNew st.userUnderLock (x, st.held) }
 
 def scan (conds : List (Str × Str)) (toks : List ETok) : Scan := toks.foldl (scanStep conds) {}
 
